@@ -524,7 +524,15 @@ func c08History(r *simrt.RNG, gc *gen.Case, maxLen int) *c08Hist {
 		case x < 32:
 			op.Op = "render-struct"
 		case x < 34:
+			// the caller renders its struct, changes it in place, renders it again
+			op.Op = "render-struct"
+			cs.Ops = append(cs.Ops, op)
 			op.Op = "edit-struct"
+			cs.Ops = append(cs.Ops, op)
+			if r.Intn(2) == 0 {
+				cs.Ops = append(cs.Ops, op) // two edits
+			}
+			op.Op = "render-struct"
 		case x < 36:
 			op.Op = "render-tofu"
 		case x < 38:
